@@ -45,6 +45,14 @@ CHECKS.update({
    text="Histories of bulk updates (900/1300/2000/4000 containers), releases and creates carrying bulk usage, up to the depth bound; every write to the CDR file table during the last transition must parse (header/file lengths, CDR count, per-record length, exactly one complete BER CHF record per payload) and no record may exceed 65535 octets.",
    ref="6 C03", note=TB_E1),
 })
+CHECKS.update({
+ "C11": dict(engine=E1, technique="bounded-exhaustive enumeration of request bodies/path parameters (single + pairwise deviations) x explicit-state exploration of request / follow-up histories through the real router; wedge = driver thread blocked forever in virtual time",
+   text="Every request body within the deviation bound of the well-formed create/update/release body and every recharging path-parameter shape is sent through the real gin router after a create (and after create+update) and followed by a well-formed update and create for the same subscriber; no 5xx, no escaping panic, 4xx carry a problem document, and the follow-up must complete (a held subscriber lock shows as a driver thread blocked forever, decided by the scheduler without wall-clock timeouts).",
+   ref="6 C11", note=TB_E1),
+ "C12": dict(engine=E1, technique="explicit-state BFS over request histories through the real router; contract oracle per request; before/after state comparison for rejected requests",
+   text="All histories up to the depth bound over two subscribers (up to two live sessions each, re-attach with another notification URI) mixing valid requests with requests naming an unknown subscriber or an unknown / stale / foreign session reference; status, Location, echoes, body and notifications are checked per request, and every rejected request must leave balances, reservations, records, files and database writes unchanged.",
+   ref="6 C12", note=TB_E1),
+})
 NA_REASON = "check under construction (see DESIGN.md section 6)"
 
 m = {"version": 1, "setup_cmd": "./setup.sh",
